@@ -22,7 +22,9 @@ sed -i "s|/verif/build/target-bbs|$S/target-bbs|" $S/bbs/.cargo/config.toml
 sed -i "s|/verif/build/target-cl|$S/target-cl|" $S/cl/.cargo/config.toml
 mkdir -p $S/out; cp $V/known_findings.txt $S/out/
 build() { # engine
-  ( cd $S/$1 && cargo build --release --offline 2>$S/build-$1.log ) || { tail -20 $S/build-$1.log; return 1; }
+  ( cd $S/$1 && cargo build --release --offline 2>$S/build-$1.log ) && return 0
+  [ $1 = bbs ] && ( cd $S/$1 && cargo build --release --offline --no-default-features 2>$S/build-$1.log ) && { echo "(engine rebuilt without library-helpers)"; return 0; }
+  tail -20 $S/build-$1.log; return 1
 }
 check() { # id -> exit code
   case $1 in C0*|C10|C11|C12) e=bbs;; *) e=cl;; esac
